@@ -29,8 +29,8 @@ try:
     demo = os.path.join(d, "demo.py")
     env = dict(os.environ)
     env.pop("PYTHONPATH", None)
-    r1 = subprocess.run(["timeout", "600", "/venv/bin/python", "-W", "ignore", demo], env=dict(env, PFHEDGE_PATH=wt), capture_output=True, text=True, cwd="/tmp")
-    r0 = subprocess.run(["timeout", "600", "/venv/bin/python", "-W", "ignore", demo], env=dict(env, PFHEDGE_PATH="/repo"), capture_output=True, text=True, cwd="/tmp")
+    r1 = subprocess.run(["timeout", "600", "/venv/bin/python", "-W", "ignore", demo], env=dict(env, PFHEDGE_PATH=wt, PYTHONPATH=wt), capture_output=True, text=True, cwd="/tmp")
+    r0 = subprocess.run(["timeout", "600", "/venv/bin/python", "-W", "ignore", demo], env=dict(env, PFHEDGE_PATH="/repo", PYTHONPATH="/repo"), capture_output=True, text=True, cwd="/tmp")
     rec["demo_fails_with_change"] = r1.returncode != 0
     rec["demo_passes_without"] = r0.returncode == 0
     rec["demo_tail_with"] = (r1.stdout + r1.stderr)[-300:]
